@@ -468,12 +468,18 @@ def _cost(s):
 
 
 PARTIAL = [
-    "pgdb_truth_is_fixed_partial: the true object is a fixed point of the backtracking iteration under exact data; that the "
-    "iteration reaches it from the origin object within the stopping accuracy is not proved (no convergence-rate theorem)",
-    "termination of the Dykstra / projected-gradient loops before their iteration limits and epsilon-accuracy of the stopped "
-    "iterate are not proved: dyk_stop_accuracy and pgdb_iterates_feasible hold for every run, stopped or not; the accuracy of "
-    "each real output is measured by the oracle",
-    "that the implementation's projections map into the physical set is C04/C05's statement; here it is the hypothesis hproj",
+    "pgdb_truth_is_fixed_partial / pgdb_run_from_stationary_point: the true object is a fixed point of the backtracking run under exact "
+    "data; that the iteration reaches it from the origin object is not proved (false on the tree for dependent-element "
+    "parametrisations: D13)",
+    "termination of the Dykstra / projected-gradient loops before their iteration limits is not proved here (C11 proves it for the "
+    "projected-gradient rule on L-smooth losses); dyk_stop_accuracy / proj_physical_lands_in_threshold_set say what a stop on the "
+    "criterion gives: in the last set, delta-close to the first — nothing about the distance to the intersection",
+    "that the implementation's elementary projections map into their sets is C04/C05's statement; here it is a hypothesis (hproj, hE, hI)",
+    "the pgdb_* theorems assume the exact-arithmetic line search returns a positive step; float runs that end the search by underflow "
+    "(alpha = 0, x_next = x_prev) are counted by the harness, not modelled",
+    "selection_table, selection_keeps_installed, ple_eq_proj_of_lin are decision tables of the model (true by unfolding): their tie to "
+    "the code is the correspondence and the generated-table theorems; dykLoop with more than one sweep and projPhysical are not "
+    "executed by the driver (whole runs are executed for pgdbOptimize and fistaLoop only)",
 ]
 
 
@@ -800,6 +806,45 @@ def corr_lme(ctx, drv, pend):
                         ctx.count(f"lme glue {impl[0]}")
 
 
+def corr_runs(ctx, drv, pend):
+    """whole runs of the real backtracking / FISTA classes with a projection and a loss that the model computes exactly (clamp to
+    a box, `SimpleQuadraticLossFunction`): the loop control (continue / break on the stopping rule, iteration limit, which point
+    is returned, the recorded history) of `pgdbOptimize` / `fistaLoop` is executed and compared, not only single steps"""
+    from quara.loss_function.simple_quadratic_loss_function import SimpleQuadraticLossFunction
+    g = ctx.npgen(16)
+    for rep in range(24 if ctx.quick else 96):
+        n = int(g.integers(1, 5))
+        ref = np.round(g.normal(0, 1.5, n) * 16) / 16
+        x0 = np.clip(np.round(g.normal(0, 1.0, n) * 16) / 16, 0.0, 2.0)
+        lo, hi = 0.0, 2.0
+        mode = STOP_MODES[int(g.integers(0, 4))]
+        nh = int(g.integers(1, 4))
+        eps = float(g.choice([2.0 ** -6, 2.0 ** -12, 2.0 ** -30]))
+        max_it = int(g.choice([1, 2, 5, 200]))
+        proj = lambda v: np.clip(v, lo, hi)  # noqa
+        loss = SimpleQuadraticLossFunction(ref.copy())
+        if rep % 2 == 0:
+            mu, gamma = float(g.choice([0.5, 1.0, 2.0, 4.0])), float(g.choice([0.25, 0.5]))
+            opt = L.PGDBO(var_start=x0.copy(), mu=mu, gamma=gamma, eps=eps, mode_stopping_criterion_gradient_descent=mode,
+                          num_history_stopping_criterion_gradient_descent=nh, max_iteration_optimization=max_it)
+            res, _ = L.quiet(L.PGDB(proj).optimize, loss, None, opt, on_iteration_history=True)
+            i = drv.ask("pgdbrun", n, qlist(ref), qlist(x0), q(lo), q(hi), q(mu), q(gamma), q(eps), mode, nh, max_it)
+            pend.append(("pgdbrun", (n, ref.tolist(), x0.tolist(), mu, gamma, eps, mode, nh, max_it),
+                         dict(k=res.k, x=np.array(res.value), errs=[float(e) for e in res.error_values], hist=[np.array(v) for v in res.x],
+                              eps=eps, nh=nh, max_it=max_it), i))
+        else:
+            delta = float(g.choice([0.125, 0.25, 0.5]))
+            opt = L.FISTAO(var_start=x0.copy(), delta=delta, eps=eps, mode_stopping_criterion_gradient_descent=mode,
+                           num_history_stopping_criterion_gradient_descent=nh, max_iteration_optimization=max_it)
+            res, _ = L.quiet(L.FISTA(proj).optimize, loss, None, opt, on_iteration_history=True)
+            i = drv.ask("fistarun", n, qlist(ref), qlist(x0), q(lo), q(hi), q(delta), q(eps), mode, nh, max_it)
+            pend.append(("fistarun", (n, ref.tolist(), x0.tolist(), delta, eps, mode, nh, max_it),
+                         dict(k=res.k, x=np.array(res.value), errs=[float(e) for e in res.error_values], eps=eps, nh=nh, max_it=max_it), i))
+        ctx.case(("run", rep), nontrivial=res.k > 1, sample={"op": "whole run", "algo": "pgdb" if rep % 2 == 0 else "fista",
+                                                              "mode": mode, "k": int(res.k), "limit": max_it})
+        ctx.count(f"whole runs ended by {'limit' if res.k == max_it else 'rule'}")
+
+
 def near(a, b, lo=0.1, hi=10.0):
     """is a within a factor [lo,hi] of the threshold b (then rounding may decide the branch: not compared)"""
     return b * lo <= a <= b * hi
@@ -813,6 +858,7 @@ def correspondence(ctx):
     corr_dyk(ctx, drv, pend)
     corr_algos(ctx, drv, pend)
     corr_lme(ctx, drv, pend)
+    corr_runs(ctx, drv, pend)
     out = drv.run()
     skipped = 0
     for op, inp, impl, i in pend:
@@ -823,6 +869,26 @@ def correspondence(ctx):
         if op in ("select", "select-kept"):
             if rep not in impl:
                 ctx.disagree(op, inp, impl, rep)
+        elif op in ("pgdbrun", "fistarun"):
+            d = impl
+            if rep == "none":
+                ctx.disagree(op, inp, "a result", rep); continue
+            t = rep.split()
+            mk, mx, merrs = int(t[0]), vec(t[1]), [float(x_) for x_ in unqlist(t[2])]
+            # a window sum within rounding distance of the threshold may decide a stop differently: compare the common prefix only
+            wins = [sum(d["errs"][max(0, j + 1 - d["nh"]):j + 1]) for j in range(len(d["errs"]))]
+            tight = any(abs(w - d["eps"]) <= 1e-9 * max(1.0, abs(w)) for w in wins)
+            m_ = min(mk, d["k"])
+            ok = allclose(merrs[:m_], d["errs"][:m_])
+            if not tight:
+                ok = ok and mk == d["k"] and allclose(mx, d["x"])
+                if op == "pgdbrun":
+                    mh = [vec(h_) for h_ in t[3].split(";")]
+                    ok = ok and len(mh) == len(d["hist"]) and all(allclose(a_, b_) for a_, b_ in zip(mh, d["hist"]))
+            else:
+                skipped += 1
+            if not ok:
+                ctx.disagree(op, inp, {"k": d["k"], "x": d["x"].tolist(), "errs": d["errs"]}, rep[:400])
         elif op == "lme":
             t = rep.split()
             if impl[0] == "err":
